@@ -55,6 +55,9 @@ pub struct NetSpec {
     /// drop exactly these packet indices (global send order)
     pub drop_kth: Vec<u64>,
     pub dup_ppm: u32,
+    /// probability (ppm) that, in addition to the genuine datagram, a copy with a few flipped
+    /// header bytes is delivered (an on-path forger that cannot produce a valid tag)
+    pub forge_ppm: u32,
     pub latency_us: u64,
     pub jitter_us: u64,
     pub net_seed: u64,
@@ -157,7 +160,7 @@ fn half_from(v: &Value) -> HalfPlan {
 
 pub fn scenario_json(s: &Scenario) -> Value {
     json!({"transport": s.transport, "class": s.class, "key": s.key,
-        "net": {"loss_ppm": s.net.loss_ppm, "burst": s.net.burst.map(|(a,b)| vec![a,b]), "drop_kth": s.net.drop_kth, "dup_ppm": s.net.dup_ppm,
+        "net": {"loss_ppm": s.net.loss_ppm, "burst": s.net.burst.map(|(a,b)| vec![a,b]), "drop_kth": s.net.drop_kth, "dup_ppm": s.net.dup_ppm, "forge_ppm": s.net.forge_ppm,
                 "latency_us": s.net.latency_us, "jitter_us": s.net.jitter_us, "net_seed": s.net.net_seed},
         "client_mtu": s.client_mtu, "server_mtu": s.server_mtu,
         "vanish": s.vanish.name(), "vanish_at_us": s.vanish_at_us,
@@ -175,6 +178,7 @@ pub fn scenario_from(v: &Value) -> Scenario {
             burst: n["burst"].as_array().and_then(|a| Some((a.first()?.as_u64()?, a.get(1)?.as_u64()?))),
             drop_kth: n["drop_kth"].as_array().map(|a| a.iter().filter_map(|x| x.as_u64()).collect()).unwrap_or_default(),
             dup_ppm: n["dup_ppm"].as_u64().unwrap_or(0) as u32,
+            forge_ppm: n["forge_ppm"].as_u64().unwrap_or(0) as u32,
             latency_us: n["latency_us"].as_u64().unwrap_or(500),
             jitter_us: n["jitter_us"].as_u64().unwrap_or(0),
             net_seed: n["net_seed"].as_u64().unwrap_or(1),
@@ -277,6 +281,7 @@ const SIM_CLASSES: &[&str] = &[
     "kth_drop",
     "dup_reorder",
     "loss_dup_reorder",
+    "forged_copies",
     "early_drop",
     "vanish_blackhole",
     "vanish_server_mute",
@@ -289,7 +294,7 @@ pub fn gen_sim_scenario(seed: u64, case: u64, only: Option<&str>, heavy_reorder:
         Some(c) => c.to_string(),
         None => {
             // weights: the fault classes dominate
-            let w = [1u64, 5, 2, 4, 2, 3, 2, 2, 1, 1];
+            let w = [1u64, 5, 2, 4, 2, 3, 3, 2, 2, 1, 1];
             let total: u64 = w.iter().sum();
             let mut x = rng.below(total);
             let mut idx = 0;
@@ -332,6 +337,11 @@ pub fn gen_sim_scenario(seed: u64, case: u64, only: Option<&str>, heavy_reorder:
             if rng.chance(1, 4) {
                 net.drop_kth.push((case / 48) % 48);
             }
+        }
+        "forged_copies" => {
+            // nothing is lost: every genuine datagram arrives, some accompanied by a forgery
+            net.forge_ppm = *rng.pick(&[20_000u32, 100_000, 400_000, 1_000_000]);
+            net.jitter_us = *rng.pick(&[0u64, 100, 300]);
         }
         "dup_reorder" => {
             net.dup_ppm = *rng.pick(&[10_000u32, 100_000, 300_000, 1_000_000]);
@@ -489,6 +499,7 @@ pub struct NetStats {
     pub dropped_kth: u64,
     pub dropped_vanish: u64,
     pub duplicated: u64,
+    pub forged: u64,
     pub reordered: u64,
     pub bytes: u64,
 }
@@ -563,14 +574,20 @@ impl NetCtl {
     }
 
     /// delivery delays (one entry per copy) for a packet that passed the monitor
-    fn plan(&mut self, p: &Packet, now_us: u64) -> Vec<Duration> {
+    fn plan(&mut self, p: &Packet, now_us: u64) -> Vec<(Duration, Option<u64>)> {
         let mut copies = 1;
         if self.spec.dup_ppm > 0 && self.rng.below(1_000_000) < self.spec.dup_ppm as u64 {
             copies = 2;
             self.stats.duplicated += 1;
         }
+        let mut forged = None;
+        if self.spec.forge_ppm > 0 && self.rng.below(1_000_000) < self.spec.forge_ppm as u64 {
+            forged = Some(self.rng.next());
+            self.stats.forged += 1;
+            copies += 1;
+        }
         let mut v = Vec::with_capacity(copies);
-        for _ in 0..copies {
+        for c in 0..copies {
             let j = if self.spec.jitter_us > 0 { self.rng.below(self.spec.jitter_us + 1) } else { 0 };
             let d = self.spec.latency_us + j;
             let at = now_us + d;
@@ -580,7 +597,8 @@ impl NetCtl {
             } else {
                 *last = at;
             }
-            v.push(Duration::from_micros(d));
+            // the last copy is the forgery, if there is one
+            v.push((Duration::from_micros(d), if c + 1 == copies { forged } else { None }));
         }
         v
     }
@@ -662,9 +680,25 @@ impl Allocator for FaultyQueues {
                     }
                     let now_us = bach::time::Instant::now().elapsed_since_start().as_micros() as u64;
                     let delays = ctl.lock().unwrap().plan(&packet, now_us);
-                    for d in delays {
+                    for (d, forge) in delays {
                         let dispatch = dispatch.clone();
-                        let packet = packet.clone();
+                        let mut packet = packet.clone();
+                        if let Some(seed) = forge {
+                            // flip 1-3 bytes among the first 48 (tag byte, credentials, packet
+                            // number, offsets, lengths): whatever it decodes to, it cannot carry
+                            // a valid authentication tag
+                            let mut r = Rng::new(seed);
+                            let mut bytes = packet.transport.payload().to_vec();
+                            let span = bytes.len().min(48);
+                            if span > 0 {
+                                for _ in 0..r.range(1, 4) {
+                                    let i = r.below(span as u64) as usize;
+                                    bytes[i] ^= 1 << r.below(8);
+                                }
+                            }
+                            *packet.transport.payload_mut() = bytes.into();
+                            packet.update_checksum();
+                        }
                         async move {
                             d.sleep().await;
                             dispatch.send(packet).await;
@@ -1017,7 +1051,14 @@ fn judge(sc: &Scenario, o: &Oracle, hanging: Vec<String>, vanish_t0_us: Option<u
         }
     }
     let _ = early;
-    if !vanished && !timed_out && o.server_preamble_failures > 0 && !sc.streams.iter().any(|s| s.client.read_stop_at.is_some() || s.client.write_stop_at.is_some()) {
+    // With forged copies on the wire the server also "accepts" streams nobody opened (a forgery
+    // whose flipped bits name another queue / stream is handed to the acceptor and only fails
+    // authentication when it is read): those die before their preamble and are not streams
+    // of the scenario.
+    if sc.net.forge_ppm > 0 && o.server_preamble_failures > 0 {
+        features.push("phantom_streams=true".into());
+    }
+    if sc.net.forge_ppm == 0 && !vanished && !timed_out && o.server_preamble_failures > 0 && !sc.streams.iter().any(|s| s.client.read_stop_at.is_some() || s.client.write_stop_at.is_some()) {
         findings.push(Finding {
             sig: format!("c20:{t}:unexpected_error:{}", if net.dropped_random + net.dropped_burst + net.dropped_kth > 0 { "lossy_network" } else { "lossless_network" }),
             what: format!("{} accepted stream(s) failed on the server before the first 8 bytes could be read although both endpoints are alive: {:?}", o.server_preamble_failures, o.errors.iter().filter(|e| e.0.starts_with("server:preamble")).collect::<Vec<_>>()),
@@ -1042,6 +1083,7 @@ fn judge(sc: &Scenario, o: &Oracle, hanging: Vec<String>, vanish_t0_us: Option<u
     });
     features.push(format!("loss={}", loss_bucket(&sc.net)));
     features.push(format!("dup={}", sc.net.dup_ppm > 0));
+    features.push(format!("forged={}", sc.net.forge_ppm > 0));
     features.push(format!("jitter={}", match sc.net.jitter_us { 0 => "0", 1..=500 => "small", _ => "large" }));
     features.push(format!("streams={}", sc.streams.len().min(4)));
     let max_size = sc.streams.iter().map(|s| s.client.write_len.max(s.server.write_len)).max().unwrap_or(0);
@@ -1596,9 +1638,20 @@ fn account(sum: &mut Summary, sc: &Scenario, out: &Outcome, seed: u64, case: u64
             sum.count(&format!("c20.observed.{kind}"), 1);
             continue;
         }
+        // forged copies (loss-free by construction) have signatures of their own: what goes wrong
+        // there goes wrong because an unauthenticated datagram was acted upon
+        let signature = if sc.net.forge_ppm > 0 && f.sig.contains(":unexpected_error:") {
+            format!("c20:{t}:stream_failed_under_forgery")
+        } else if sc.net.forge_ppm > 0 && f.sig.contains("traffic_storm") {
+            format!("c20:{t}:traffic_storm_under_forgery")
+        } else if sc.net.forge_ppm > 0 && f.sig.contains(":hang:peer_alive") {
+            format!("c20:{t}:hang_under_forgery")
+        } else {
+            f.sig.clone()
+        };
         known::push_violation(sum, Violation {
             property: "C20".into(),
-            signature: f.sig.clone(),
+            signature,
             what: f.what.clone(),
             replay: json!({"check":"c20","seed":seed,"case":case,"scenario":scenario_json(sc)}),
         }, 3);
@@ -1638,7 +1691,11 @@ fn account_failure(sum: &mut Summary, sc: &Scenario, msg: String, seed: u64, cas
             sum.count("retransmission_storms", 1);
             known::push_violation(sum, Violation {
                 property: "C20".into(),
-                signature: format!("c20:{}:traffic_storm_no_progress", sc.transport),
+                signature: if sc.net.forge_ppm > 0 {
+                    format!("c20:{}:traffic_storm_under_forgery", sc.transport)
+                } else {
+                    format!("c20:{}:traffic_storm_no_progress", sc.transport)
+                },
                 what: format!("class {}: {wire} bytes on the wire for at most {intended} application bytes and the simulation still cannot reach the deadline: {msg}", sc.class),
                 replay: json!({"check":"c20","seed":seed,"case":case,"scenario":scenario_json(sc)}),
             }, 3);
